@@ -8,6 +8,8 @@ package sarama
 
 import (
 	"fmt"
+	"log"
+	"os"
 	"runtime"
 	"runtime/debug"
 	"strings"
@@ -26,6 +28,7 @@ type vfHookState struct {
 	// gates: point -> channel that blocks the n-th hit until released (directed windows)
 	block map[string]*vfHookBlock
 	onHit func(point string, n int)
+	sim   *vfSim
 }
 
 type vfHookBlock struct {
@@ -38,7 +41,10 @@ type vfHookBlock struct {
 var vfHooks atomic.Value // *vfHookState
 
 func vfInstallHooks(delays map[string][]int, sim *vfSim) func() {
-	st := &vfHookState{counts: map[string]int{}, delays: delays, block: map[string]*vfHookBlock{}}
+	if os.Getenv("VF_SARAMA_LOG") != "" { // development aid: the library's own log on stdout
+		Logger = log.New(os.Stdout, "[sarama] ", log.Lmicroseconds)
+	}
+	st := &vfHookState{counts: map[string]int{}, delays: delays, block: map[string]*vfHookBlock{}, sim: sim}
 	vfHooks.Store(st)
 	verifHookFn.Store(func(point string) { st.hit(point) })
 	return func() {
@@ -69,6 +75,11 @@ func (st *vfHookState) hit(point string) {
 	st.mu.Unlock()
 	if cb != nil {
 		cb(point, n)
+	}
+	if point == "prod.broker.connerror" && st.sim != nil {
+		// the producer took its connection-level failure path (handleError): what the known idempotence findings start from.
+		// Recorded before the messages are re-queued, hence before anything re-batched can reach a broker.
+		st.sim.ev(vfEvent{Kind: "client-conn-error"}, true)
 	}
 	if b != nil && b.occ == n {
 		select {
